@@ -263,6 +263,8 @@ func init() {
 						qs = append(qs, "lr~"+X(p.String())+"~"+X(sub))
 						if err != nil {
 							answers = append(answers, "err")
+							// the package is in the bundle and the sub-path is a valid one: the lookup must answer
+							fail(fmt.Sprintf("lookup of %s//%s, a package the bundle contains, is refused: %v", p, sub, err))
 							continue
 						}
 						answers = append(answers, X(lp))
